@@ -70,3 +70,60 @@ class _hint_lemma:
     def requires(e): return stream_header(e.header, e.ghost_delimited, e.ghost_L, e.ghost_rowlen)
 
     def ensures(e): return {"classified-as-written": Iff(e.result, e.ghost_delimited)}
+
+
+# ------------------------------------------------------------------------------------------- get_options_and_frames
+from pyvc.contract import LoopSpec, MSG, Sort  # noqa: E402
+from pyvc.spec import is_none  # noqa: E402
+
+
+@contract(f"{PIO}:frame_iterator", serves=["C09", "C10"])
+class _frame_iterator:
+    """frames are taken off the source one at a time, each handed out before the next one is read (C10/C11: no
+    look-ahead); the parser itself is outside the contracts (A-IO)"""
+    params = {"inp": Sort("bytesrc", True)}
+    variants = [{"inp": Sort("bytesrc", True)}]
+    yields = (Sort("frame0"), Sort("frame1", "parsed"))      # a frame without rows, or one with at least one row
+    modifies = ["inp"]
+    loops = {0: LoopSpec(invariant=lambda e: {"nothing-pending": True}, modifies=["inp", "frame"],
+                         after_each=lambda e: {"each-frame-is-handed-out-before-the-next-read": len(e.iter_yields) == 1})}
+
+    def raises(e): return {("?", "DecodeError"): True}
+    def on_raise(e): return {"anything": True}
+    def ensures(e): return {}
+
+
+def content_hint(src: Any) -> Any:
+    """the framing hint of the first three bytes of the source's *content* (not of what some read happened to return)"""
+    return hint_formula(src.data)
+
+
+@contract(f"{PIO}:get_options_and_frames", serves=["C09", "C08", "C10"])
+class _get_options_and_frames:
+    """C09: whether a stream is read as delimited depends only on its first three bytes - not on how the source chunks
+    its reads.  Proved for seekable sources (read(3) is exact); for non-seekable sources the decision is taken on
+    `BufferedReader.peek(3)`, which may legally return fewer than three bytes: that clause carries the known-finding
+    label (D5) and is reported from the list."""
+    params = {"inp": Sort("bytesrc", True)}
+    variants = [{"inp": Sort("bytesrc", True)}, {"inp": Sort("bytesrc", False)}]
+    result = Sort("anyval")
+    modifies = ["inp"]
+    tag_suffix = {"@nonseekable-short-peek": ["C09"]}
+    loops = {0: LoopSpec(invariant=lambda e: {"no-non-empty-frame-seen-yet": is_none(e.first_frame) if e.first_frame is not None else True},
+                         modifies=["skipped_frames"])}
+
+    def raises(e): return {("?", "DecodeError", "JellyConformanceError", "JellyAssertionError"): True}
+    def on_raise(e): return {"anything": True}
+
+    def ensures(e):
+        opts = e.result.items[0]
+        delimited = opts.items[2].delimited
+        src = e.old.inp
+        same = delimited == content_hint(src)
+        if src.seekable:
+            return {"framing-decided-by-the-first-three-content-bytes": same}
+        n = src.data.len
+        enough = e.inp.peeked >= z3.If(n < 3, n, 3)      # the peek delivered the first three bytes (or all there is)
+        return {"framing-decided-by-the-first-three-content-bytes": Implies(enough, same),
+                # D5: BufferedReader.peek(3) may deliver fewer bytes than are available
+                "framing-decided-by-the-first-three-content-bytes@nonseekable-short-peek": Implies(Not(enough), same)}
